@@ -254,7 +254,7 @@ pub fn run(ctx: &Ctx) -> i32 {
                 threads: ctx.threads,
                 mem_bytes: 3 << 30,
                 case_timeout_s: 60,
-                died_signature: "C09/abort".into(),
+                died_signature: "C09/abort".into(), resource_is_violation: false,
             };
             let nshards = if n >= 4 { 128 } else { 16 };
             corpus::warm(p, n);
